@@ -172,11 +172,40 @@ def solve_one(job):
 
     relative = bool(job.get("relative"))
 
+    _cse = {}
+
+    def pair_values(pairs, vals):
+        """Values of all sides of the pairs at one point.  Large pair lists (set-up constants defined in terms of one another) are evaluated
+        through their common sub-expressions, each once per point."""
+        k_ = id(pairs)
+        if k_ not in _cse:
+            exprs = [e_.xreplace(repl).subs(u, vpos / (1 + vpos)) for pr_ in pairs for e_ in pr_]
+            try:
+                _cse[k_] = sp.cse(exprs, order="none")
+            except Exception:      # noqa: BLE001
+                _cse[k_] = ([], exprs)
+        reps, red = _cse[k_]
+        env_ = dict(vals)
+        out = []
+        try:
+            for sy_, ex_ in reps:
+                env_[sy_] = sp.N(ex_.subs(env_), 40)
+            for ex_ in red:
+                v = sp.N(ex_.subs(env_), 40)
+                out.append(v if (v.is_number and v.is_finite) else None)
+        except Exception:      # noqa: BLE001
+            return None
+        return [(out[2 * i_], out[2 * i_ + 1]) for i_ in range(len(pairs))]
+
     def cmp_at(pairs, vals, key=None):
         """('real' | 'complex', differs) at this point, or None if a side has no value.  'real': every compared value is a real number."""
         allreal, diff = True, False
-        for (x_, y_) in pairs:
-            xv, yv = cval(x_, vals, key), cval(y_, vals, key)
+        big = sum(sp.count_ops(x_) + sp.count_ops(y_) for x_, y_ in pairs) > 400 if id(pairs) not in _cse else True
+        pv = pair_values(pairs, vals) if big else None
+        if big and pv is None:
+            return None
+        for i_, (x_, y_) in enumerate(pairs):
+            xv, yv = pv[i_] if big else (cval(x_, vals, key), cval(y_, vals, key))
             if xv is None or yv is None:
                 return None
             if not (xv.is_real and yv.is_real):
@@ -192,22 +221,29 @@ def solve_one(job):
         r_ = cmp_at(pairs, vals)
         return None if (r_ is None or r_[0] != "real") else r_[1]
 
-    def numeric(pl):
+    def numeric(pl, start=0):
         """Witness text if the pairs are different functions, else None; second result: whether a both-real point was seen.
         A real-valued disagreement at a point refutes.  A disagreement on a complex branch (logarithm or root of a negative number) refutes
         only when the two sides are nowhere both real on the grid (their natural domains do not meet there, e.g. tests of different regions
         of one algorithm): identities such as ln(ab) = ln a + ln b hold where both sides are real and fail on the principal branch."""
-        real_seen, cdiff = False, None
+        real_seen, cdiff, agree = False, None, 0
         for k_, vals in enumerate(points):
+            if k_ < start:
+                continue
+            if agree >= 3 and start == 0:
+                return None, k_          # agreement at three both-real points: worth the algebra; the remaining points are looked at if the algebra fails
             r_ = cmp_at(pl, vals, k_)
             if r_ is None:
                 continue
             if r_[0] == "real":
                 real_seen = True
+                agree += 1
                 if r_[1]:
                     return "at %s the two sides differ" % {str(a_): str(v_) for a_, v_ in vals.items()}, True
             elif r_[1] and cdiff is None:
                 cdiff = vals
+        if start:
+            return None, True
         if not real_seen and cdiff is not None:
             return "at %s the two sides differ (on a complex branch; they are nowhere both real on the grid)" % {str(a_): str(v_) for a_, v_ in cdiff.items()}, False
         return None, real_seen
@@ -304,6 +340,7 @@ def solve_one(job):
             continue
         # numeric pre-filter: the algebra is tried only for forms that agree with the term wherever both are real on the grid
         w, real_seen = numeric(pl)
+        resume = real_seen if (real_seen is not True and real_seen is not False) else 0
         if w is not None:
             refuted.append(w)
             continue
@@ -315,8 +352,10 @@ def solve_one(job):
             if job.get("variant_of") is None:
                 break
             continue
-        # numerically equal on the grid but not shown equal: different next to a jump of a floor term?
-        for vals in floor_points(pl, points[0]):
+        # not shown equal: different at one of the grid points not looked at yet, or next to a jump of a floor term?
+        if resume:
+            w, _ = numeric(pl, resume)
+        for vals in ([] if w is not None else floor_points(pl, points[0])):
             if differs_at(pl, vals) is True:
                 w = "at %s (next to a jump of a floor term) the two sides differ" % {str(k): str(v_)[:24] for k, v_ in vals.items()}
                 break
